@@ -50,6 +50,20 @@ Proof.
 Qed.
 Print Assumptions C34_refuted.
 
+Theorem C34_statement_refuted : ~ C34_statement.
+Proof.
+  intros H.
+  destruct (H c34_witness 40%nat (Ok (VInt 3)) (mkSt [] [VInt 1; VInt 2])) as [k Hk].
+  - vm_compute. reflexivity.
+  - exact I.
+  - pose proof (run_mono (compile c34_witness) k _ _ _ Hk ltac:(discriminate) 200%nat) as A.
+    assert (B : run_vm (compile c34_witness) 200 = (Ok (VInt 5), mkSt [] [VInt 1])) by (vm_compute; reflexivity).
+    pose proof (run_mono (compile c34_witness) 200 _ _ _ B ltac:(discriminate) k) as B'.
+    unfold run_vm in *. replace (200 + k)%nat with (k + 200)%nat in B' by apply Nat.add_comm.
+    rewrite A in B'. discriminate.
+Qed.
+Print Assumptions C34_statement_refuted.
+
 (* every window replaced by the peephole pass behaves like its replacement, from every machine state *)
 Theorem C34_peephole_preserves : forall C i1 i2 rep,
   pattern i1 i2 = Some rep -> exists j, rep = [j] /\ window_ok C i1 i2 j.
